@@ -43,6 +43,8 @@ class SimFile(object):
         self.invoked = []       # (stamp, raw) of every write call entered (oracle use)
         # ENOSPC, EIO, and the two that Python maps to BlockingIOError / InterruptedError
         self.errnos = [errno.ENOSPC, errno.EIO, errno.EAGAIN, errno.EINTR]
+        self.can_seek = True
+        self._pos = None        # None = at the end (append mode: every write goes to the end anyway)
 
     # -- helpers
     def _count(self, k):
@@ -116,6 +118,45 @@ class SimFile(object):
 
     def close(self):
         self._closed = True
+
+    # -- position (a regular file opened for appending; the unchanged library never asks)
+    def seekable(self):
+        return self.can_seek
+
+    def tell(self):
+        if self._pos is not None:
+            return self._pos
+        return len(self.os_cache) + len(self.user_buf)
+
+    def seek(self, pos, whence=0):
+        if not self.can_seek:
+            raise io.UnsupportedOperation("seek")
+        end = len(self.os_cache) + len(self.user_buf)
+        if whence == 1:
+            pos += self.tell()
+        elif whence == 2:
+            pos += end
+        self._pos = None if pos >= end else max(0, pos)
+        self._yield("file.seek")
+        return self.tell()
+
+    def truncate(self, size=None):
+        """Cut the file at ``size`` (default: the current position): cached and unflushed bytes alike."""
+        if not self.can_seek:
+            raise io.UnsupportedOperation("truncate")
+        if size is None:
+            size = self.tell()
+        self._count("truncate")
+        self.calls.append(("truncate", size))
+        n = len(self.os_cache)
+        if size <= n:
+            self.os_cache = self.os_cache[:size]
+            self.user_buf = b""
+        else:
+            self.user_buf = self.user_buf[: size - n]
+        self._pos = None
+        self._yield("file.truncate")
+        return size
 
     # -- observation
     def durable(self):
